@@ -406,7 +406,7 @@ theorem kwColumns_kwDicts (R : List (Answer × List PyVal)) (a0 : Answer) (as0 :
     kwColumns (R.map (fun r => kwDict r.1)) =
       .ok (.dict .tmp a0.kwKeys (a0.kwKeys.map (fun k => PyVal.list .tmp (R.map (fun r => (lookupKey k r.1.kwKeys r.1.kwVals).getD .none))))) := by
   subst hR
-  simp only [sameKeys, List.all_eq_true, Bool.and_eq_true, beq_iff_eq] at hs
+  simp only [sameKeys, List.all_eq_true, Bool.and_eq_true, beq_iff_eq, List.contains_iff_mem] at hs
   simp only [kwColumns, List.map_cons, kwDict, bind, Except.bind]
   have : mapE (fun k => do
         let col ← mapE (getKey k) (PyVal.dict (.lrn 0) a0.kwKeys a0.kwVals :: R'.map (fun r => PyVal.dict (.lrn 0) r.1.kwKeys r.1.kwVals))
@@ -419,7 +419,7 @@ theorem kwColumns_kwDicts (R : List (Answer × List PyVal)) (a0 : Answer) (as0 :
       apply mapE_map_ok
       intro r hr
       have := hs r hr
-      exact getKey_kwDict k r.1 this.2 (by rw [this.1]; exact hk)
+      exact getKey_kwDict k r.1 this.1.1 (this.1.2 k hk)
     simp only [List.map_cons, kwDict] at hcol
     simp [hcol, bind, Except.bind, pure, Except.pure]
   simp only [bind, Except.bind, pure, Except.pure] at this ⊢
